@@ -155,7 +155,8 @@ bool run_ext(Ctx &C, const std::string &cmd, Toks &T, long seq) {
   if (cmd == "fullact") {
     bind(C); VectorNd q = T.vec(), qd = T.vec(); std::vector<SpatialVector> *fe = C.fext(T);
     bool r = isConstrainedSystemFullyActuated(m, q, qd, E(C).cs, true, fe);
-    out.begin(seq, "fullact"); out.u(r ? 1 : 0); out.end(); return true;
+    out.begin(seq, "fullact"); out.u(r ? 1 : 0); out.end();
+    out.begin(seq, "fullact_G"); out.mat(E(C).cs.G); out.end(); return true;   // the Jacobian the rank test saw
   }
   if (cmd == "ik1") {
     // ik1 nt {ref pt off}* Qstar Qinit step_tol lambda max_iter : targets are the point positions at Qstar plus an offset
